@@ -18,7 +18,7 @@ ALG4 = ("randomQ", "cube4D", "fulldiv")
 ZERO = {"o": "zero3D", "b": "zero4D"}
 DEFAULT = {"o": "ico", "b": "cube4D"}
 ALL_ALG = ALG3 + ALG4 + ("zero3D", "zero4D")
-INTS = ["0", "1", "2", "5", "12", "05", "-3"]
+INTS = ["0", "1", "2", "5", "8", "12", "40", "05", "-3"]
 TOKENS = list(ALL_ALG) + ["zero"] + INTS + ["none", "None", "abc", "", "ico5", "4D"]
 
 
@@ -96,8 +96,8 @@ def construct_case(case):
             return {"violations": [viol(pre + "|count", "constructed grid does not have N points", case, expected=N,
                                         observed=len(arr))]}
     except ValueError as e:
-        if alg == "fulldiv":
-            return {"violations": []}
+        if alg == "fulldiv" and N not in (8, 40, 272, 2080):
+            return {"violations": []}          # documented: only full subdivisions are supported
         return {"violations": [viol(pre + "|valueerror", f"undocumented ValueError: {str(e)[:80]}", case)]}
     except Exception as e:
         return {"violations": [viol(pre + "|raises", f"construction raised {type(e).__name__}: {str(e)[:80]}", case)]}
